@@ -16,6 +16,7 @@ import (
 	"mellium.im/xmpp/jid"
 	"mellium.im/xmpp/stanza"
 	"verif.sim/simrt"
+	"verif.sim/simrt/simnet"
 )
 
 // C05 — each transmit call puts exactly its own element on the wire, whole.
@@ -283,8 +284,110 @@ func genSpec(rc *RC, ns, marker string, stanzaOnly bool, big bool) *xSpec {
 	return s
 }
 
+// c05WriteFault: the fault-injecting configuration, kept apart from the fault-free one so that the relaxations it
+// needs hide nothing there. From its k-th Write on the transport fails (after delivering a drawn prefix); a transmit
+// call may then fail, but one that returns nil has put its whole element on the wire.
+func c05WriteFault(rc *RC) {
+	ch := rc.Ch
+	opts := E2Opts{S2S: ch.Chance("workload", 1, 3)}
+	strat := rc.S.ConfigureStrategy()
+	e := rc.NewE2(opts)
+	if e == nil {
+		return
+	}
+	e.Serve(xmpp.HandlerFunc(func(xmlstream.TokenReadEncoder, *xml.StartElement) error { return nil }))
+	k := e.SUT.Writes + ch.Range("faults", 1, 6)
+	e.SUT.WriteErrAt, e.SUT.WriteErr, e.SUT.WritePartial, e.SUT.WriteErrOnce = k, simnet.ErrInjected, ch.Int("faults", 60), ch.Chance("faults", 1, 3)
+	kinds := []string{"Send", "SendElement", "Encode/struct", "Encode/marshaler", "Encode/tokenreader", "EncodeElement", "TokenWriter"}
+	var calls []*c05Call
+	var tasks []*simrt.Task
+	mk := 0
+	for i, n := 0, ch.Range("workload", 1, 3); i < n; i++ {
+		var pl []*c05Call
+		for j, m := 0, ch.Range("workload", 1, 4); j < m; j++ {
+			mk++
+			c := &c05Call{kind: kinds[ch.Int("workload", len(kinds))], marker: fmt.Sprintf("K%dk", mk)}
+			pl = append(pl, c)
+			calls = append(calls, c)
+		}
+		tasks = append(tasks, rc.Spawn(fmt.Sprintf("caller%d", i), func() {
+			for _, c := range pl {
+				ctx, cancel := context.WithTimeout(e.Ctx, 5*time.Second)
+				body := fmt.Sprintf(`<message to="peer@example.net" mk="%s"><body>%s</body></message>`, c.marker, strings.Repeat("b", ch.Range("workload", 0, 300)))
+				s := e.Sess
+				switch c.kind {
+				case "Send":
+					c.err = s.Send(ctx, xml.NewDecoder(strings.NewReader(body)))
+				case "SendElement":
+					c.err = s.SendElement(ctx, xmlstream.Wrap(xmlstream.Token(xml.CharData("x")), xml.StartElement{Name: xml.Name{Local: "body"}}), xml.StartElement{Name: xml.Name{Local: "message"}, Attr: []xml.Attr{{Name: xml.Name{Local: "mk"}, Value: c.marker}}})
+				case "Encode/struct":
+					c.err = s.Encode(ctx, c05Struct{XMLName: xml.Name{Local: "message"}, MK: c.marker, To: "peer@example.net"})
+				case "Encode/marshaler":
+					c.err = s.Encode(ctx, readerMarshaler{xml.NewDecoder(strings.NewReader(body))})
+				case "Encode/tokenreader":
+					c.err = s.Encode(ctx, xml.NewDecoder(strings.NewReader(body)))
+				case "EncodeElement":
+					c.err = s.EncodeElement(ctx, c05Struct{XMLName: xml.Name{Local: "message"}, MK: c.marker, To: "peer@example.net"}, xml.StartElement{Name: xml.Name{Local: "message"}})
+				case "TokenWriter":
+					w := s.TokenWriter()
+					_, err := xmlstream.Copy(w, xml.NewDecoder(strings.NewReader(body)))
+					if err == nil {
+						err = w.Flush()
+					}
+					if cerr := w.Close(); err == nil {
+						err = cerr
+					}
+					c.err = err
+				}
+				c.done = true
+				cancel()
+			}
+		}))
+	}
+	rc.Describe("write-fault strategy=%s s2s=%v at-write=%d partial=%d once=%v calls=%d", strat, opts.S2S, k, e.SUT.WritePartial, e.SUT.WriteErrOnce, len(calls))
+	rc.CaseKey = fmt.Sprint("wf", opts.S2S, e.SUT.WriteErrOnce)
+	st := rc.S.Run(func() bool {
+		for _, t := range tasks {
+			if !t.Done() {
+				return false
+			}
+		}
+		return true
+	}, 100000, time.Minute)
+	if st != simrt.CondMet {
+		rc.Failf("C05.c1", "calls-not-finished:write-fault", "transmit calls did not all return after a transport write error: status %v, stuck %v", st, rc.S.Stuck())
+	}
+	// what the peer can have received: the bytes the transport accepted
+	tap := e.SUT.Out().Tap
+	w := ParseWire(tap)
+	for _, c := range calls {
+		if !c.done || c.err != nil {
+			continue
+		}
+		rc.Evals["C05.c2"]++
+		whole := false
+		for _, x := range w.Elems {
+			if x.Attr("mk") == c.marker {
+				whole = true
+			}
+		}
+		if !whole {
+			rc.Failf("C05.c2", "nil-but-not-on-wire:"+c.kind, "%s(%s) returned nil although the transport failed and its element did not reach the wire whole (the transport accepted %q)", c.kind, c.marker, tail(tap, 200))
+		}
+	}
+	rc.Spawn("peer-close", func() { e.PeerWrite(e.CloseTag()) })
+	rc.S.Run(func() bool { return e.ServeDone }, 20000, time.Minute)
+	stuck := rc.Teardown()
+	rc.CheckPanics("C05.c1")
+	rc.Check("C05.c1", "stuck-after-teardown", len(stuck) == 0, "tasks still blocked after teardown: %v", stuck)
+}
+
 func runC05(rc *RC) {
 	ch := rc.Ch
+	if ch.Chance("workload", 1, 6) {
+		c05WriteFault(rc)
+		return
+	}
 	opts := E2Opts{S2S: ch.Chance("workload", 1, 3), Chunk: ch.Chance("workload", 1, 2)}
 	if !opts.S2S && ch.Chance("workload", 1, 4) {
 		opts.WS = true
@@ -358,6 +461,14 @@ func runC05(rc *RC) {
 				err = e2
 			}
 			c.err = err
+			if ch.Chance("workload", 1, 2) {
+				// closing a writer twice is harmless (an explicit Close plus the deferred one): other callers may hold the
+				// output by then
+				for i, n := 0, ch.Range("workload", 1, 6); i < n; i++ {
+					simrt.Yield("before-second-close")
+				}
+				w.Close()
+			}
 		case "Encode":
 			c.form = []string{"struct", "marshaler", "writerto", "tokenreader"}[ch.Int("workload", 4)]
 			switch c.form {
